@@ -217,6 +217,11 @@ class C10(Property):
              "red": rw, "events": []},
             {"api": "finish", "workers": 0, "gen": [], "maps": {}, "red": [], "events": []},
             {"api": "finishvoid", "workers": 0, "gen": [], "maps": {}, "red": [], "events": []},
+            # exactly one function (the boundary next to the empty fast path), with and without a failure
+            {"api": "finishvoid", "workers": 1, "gen": [["send", 0]], "maps": {"0": []}, "red": [], "events": []},
+            {"api": "finish", "workers": 1, "gen": [["send", 0]], "maps": {"0": []}, "red": [], "events": []},
+            {"api": "finish", "workers": 1, "gen": [["send", 0]], "maps": {"0": [["cancel", 7]]}, "red": [], "events": []},
+            {"api": "finishvoid", "workers": 1, "gen": [["send", 0]], "maps": {"0": [["panic", 3]]}, "red": [], "events": []},
             {"api": "void", "workers": 2, "gen": [["send", 1], ["send", 2]], "maps": {"1": [["write", 1]], "2": [["cancelnil"]]},
              "red": [["recvall"]], "events": []},
             # two cancels with errors of different concrete types, the second blocked at the once while the first drains
